@@ -39,11 +39,21 @@ def not_in_range(trial_datum, lower, upper):
     return trial_datum not in range(lower, upper)
 
 
+def _check_modulo_operand(obj):
+    # applied to a string, `%` is string formatting, not the modulo operation (and a format
+    # such as "%99999999999d" asks for an enormous amount of memory); the comparison is
+    # not defined for strings:
+    if isinstance(obj, (str, bytes)):
+        raise TypeError(f"Modulo is not defined for a string operand: {obj!r}.")
+
+
 def factor_of(trial_datum, value) -> bool:
+    _check_modulo_operand(value)
     return value % trial_datum == 0
 
 
 def has_factor(trial_datum, value) -> bool:
+    _check_modulo_operand(trial_datum)
     return trial_datum % value == 0
 
 
